@@ -104,7 +104,8 @@ async fn run_framing(case: &Value) -> Value {
     let both_11 = client_11 && server_caps.contains(&"1.1");
     let common = both_11 || (client_10 && server_caps.contains(&"1.0"));
     // the request
-    let after_hello = from_client.len();
+    // the request may already have arrived together with the client hello
+    let after_hello = from_client.windows(6).position(|w| w == MARKER.as_bytes()).map_or(from_client.len(), |p| p + 6);
     let mut request_framing = "none";
     if got_hello && common {
         // wait for request bytes in either framing
